@@ -87,8 +87,8 @@ ADD = {
  "C08": "TLS family (24/600): TLS listener over the in-memory listener with peers that stay silent, send only a record header, garbage, plain-text KMIP or leave; well-behaved TLS clients must be served meanwhile, nothing may survive the peers, and Shutdown must return with peers still stalled.",
  "C09": "Versions family: all 31 supported-version sets (shuffled) x 11 request versions inside, in gaps of, below and above the set.",
  "C10": "A further plan makes the server write a server-to-client request on the connection ahead of the response.",
- "C11": "Late-response family (30/600): a net.Conn wrapper hands the frame-completing Read over only when Close is called, with the call abandoned by cancellation, deadline or Close; call returns, client recovers, census.",
- "C13": "The scripted matrix runs through Dial and through DialCluster (with and without WithRetryTimeout): 19840 Dials.",
+ "C11": "Double-fault family (120 sampled / all 6720): the first connection fails at (kind1, op<14) and the connection that replaces it at (kind2, op<10); at most two consecutive calls may fail. Late-response family (30/3000): a net.Conn wrapper hands the frame-completing Read over only when Close is called, with the call abandoned by cancellation, deadline or Close; call returns, client recovers, census.",
+ "C13": "The scripted matrix runs through Dial and through DialCluster (with and without WithRetryTimeout): 19840 Dials. Arbitrary-lists family (4k/400k): server lists with duplicates, versions unknown to the library (0.9, 1.5, 2.x, 3.0), any order and length, and discovery failing with reasons other than 'operation not supported'.",
  "C14": "A builder that produces no object for a key the property names is a violation. The transport buffer is overwritten after decoding. Held family (60/6000): 3-8 objects received on one stream, keys extracted after the last message arrived.",
  "C15": "A fifth action stores the empty value; in half of the rounds a batch-splitting middleware passes half of the requests on in chunks through separate continuation calls.",
  "C16": "Repeated-shutdown family (45/1500): two concurrent Shutdown calls, a second call while the first waits, listener closed by the owner first; verdicts use the first return.",
